@@ -119,7 +119,23 @@ func C08(c *Ctx) {
 			targets = append(targets, x.(ssa.Instruction))
 		}
 		targets = append(targets, fieldStoresIn(fn, false, "NoKV.valueLog", "filesToBeDeleted")...)
-		c.Decide(len(targets) >= 2, r4, key(fn, "has:deletion-routes"), fn.Pos(), len(targets)+1, "both deletion routes present", "expected removeValueLogFile call and filesToBeDeleted append in rewrite")
+		// a helper of rewrite that performs the deletion (immediately or deferred) is a route too
+		rmM := Named("NoKV.(*valueLog).removeValueLogFile")
+		AllInstrs(fn, false, func(in ssa.Instruction) {
+			ci, ok := in.(ssa.CallInstruction)
+			if !ok || rmM(ci.Common()) {
+				return
+			}
+			h := StaticFn(ci.Common())
+			if h == nil || h.Blocks == nil || h == fn || FuncPkgPath(h) != FuncPkgPath(fn) {
+				return
+			}
+			if len(Calls(h, false, rmM)) > 0 || len(fieldStoresIn(h, false, "NoKV.valueLog", "filesToBeDeleted")) > 0 {
+				c.Touch(h)
+				targets = append(targets, in)
+			}
+		})
+		c.Decide(len(targets) >= 1, r4, key(fn, "has:deletion-routes"), fn.Pos(), len(targets)+1, "the deletion route(s) of the rewritten segment are present", "expected a removeValueLogFile call or filesToBeDeleted append (directly or in a helper) in rewrite")
 		bs := Calls(fn, false, Named("NoKV.(*DB).batchSet"))
 		for i, t := range targets {
 			k := key(fn, fmt.Sprintf("delete-route[%d]", i+1))
